@@ -903,3 +903,201 @@ Section Counting.
     - intros j. exact (exec_scales_trace_in false rdm _ _ ms Msc nd_coarse I1 ms_kind).
   Qed.
 End Counting.
+
+(* ================================================================== image sizes per execution *)
+
+Lemma annotate_app k a b :
+  annotate k (a ++ b) = annotate k a ++ annotate (k + length (filter is_msc_left a)) b.
+Proof.
+  revert k. induction a as [|e a IH]; intros k.
+  - cbn [app annotate filter length]. f_equal. lia.
+  - cbn [app annotate filter]. rewrite IH. destruct (is_msc_left e); cbn [length]; do 3 f_equal; lia.
+Qed.
+
+Lemma step_evs_no_pop rdm sc s : is_kind Msc s = false -> filter is_msc_left (step_evs rdm sc s) = [].
+Proof.
+  unfold is_kind, step_evs. destruct (s_kind s) as [k|]; [|reflexivity].
+  intros H. unfold evs. destruct k; try discriminate H; destruct rdm; reflexivity.
+Qed.
+
+Lemma scale_trace_no_pop rdm sc l : has_kind Msc l = false -> filter is_msc_left (scale_trace rdm sc l) = [].
+Proof.
+  induction l as [|s r IH]; intros H; [reflexivity|].
+  unfold has_kind in H. cbn [existsb] in H. apply orb_false_iff in H as [H1 H2].
+  unfold scale_trace. cbn [flat_map]. rewrite filter_app, step_evs_no_pop by exact H1. apply IH. exact H2.
+Qed.
+
+Lemma annotate_no_pop k tr : filter is_msc_left tr = [] -> annotate k tr = map (fun e => (e, k)) tr.
+Proof.
+  revert k. induction tr as [|e r IH]; intros k H; [reflexivity|].
+  cbn [filter] in H. destruct (is_msc_left e) eqn:E; [discriminate|].
+  cbn [annotate map]. rewrite E. f_equal. apply IH. exact H.
+Qed.
+
+Lemma scale_trace_app rdm sc a b : scale_trace rdm sc (a ++ b) = scale_trace rdm sc a ++ scale_trace rdm sc b.
+Proof. unfold scale_trace. apply flat_map_app. Qed.
+
+Lemma scale_trace_scale rdm sc l e : In e (scale_trace rdm sc l) -> ev_scale e = sc.
+Proof.
+  unfold scale_trace. rewrite in_flat_map. intros (s & _ & H). unfold step_evs in H.
+  destruct (s_kind s); [|destruct H]. unfold evs in H.
+  destruct rdm; cbn [In] in H; intuition (subst; reflexivity).
+Qed.
+
+(* during the execution [e] (not the multiscale step itself) the number of pops done by
+   run_multiscale is n - 1 - scale *)
+Definition pops_ok (n : nat) (ep : ev * nat) : Prop :=
+  ev_kind (fst ep) <> Msc -> 0 <= ev_scale (fst ep) /\ Z.of_nat (snd ep) = Z.of_nat n - 1 - ev_scale (fst ep).
+
+Section Sizes.
+  Variables (pre : list step) (ms : step) (post : list step) (n : nat) (rdm : bool).
+  Hypothesis Hn : (n >= 1)%nat.
+  Hypothesis Hpre : has_kind Msc pre = false.
+  Hypothesis Hms : s_kind ms = Some Msc.
+
+  Let final := scale_trace rdm 0 (pre ++ filter not_msc post).
+
+  Lemma final_no_pop : filter is_msc_left final = [].
+  Proof.
+    unfold final. apply scale_trace_no_pop. rewrite has_kind_app, Hpre. cbn [orb].
+    unfold has_kind. induction post as [|s r IH]; [reflexivity|].
+    cbn [filter]. destruct (not_msc s) eqn:E; [|exact IH].
+    cbn [existsb]. rewrite IH, orb_false_r. unfold not_msc in E. apply negb_true_iff in E. exact E.
+  Qed.
+
+  Lemma seg_pops j : length (filter is_msc_left (scale_trace rdm (Z.of_nat j) (pre ++ [ms]))) = 1%nat.
+  Proof.
+    rewrite scale_trace_app, filter_app, scale_trace_no_pop by exact Hpre.
+    unfold scale_trace. cbn [flat_map]. rewrite app_nil_r. unfold step_evs. rewrite Hms.
+    unfold evs. destruct rdm; reflexivity.
+  Qed.
+
+  Lemma seg_msc_events j e : In e (scale_trace rdm (Z.of_nat j) [ms]) -> ev_kind e = Msc.
+  Proof.
+    unfold scale_trace. cbn [flat_map]. rewrite app_nil_r. unfold step_evs. rewrite Hms. unfold evs.
+    destruct rdm; cbn [In]; intuition (subst; reflexivity).
+  Qed.
+
+  Lemma pops_invariant j : forall k, (k + j = n - 1)%nat ->
+    Forall (pops_ok n)
+           (annotate k (flat_map (fun j => scale_trace rdm (Z.of_nat j) (pre ++ [ms])) (down j) ++ final)).
+  Proof.
+    induction j as [|j IH]; intros k Hk.
+    - cbn [down flat_map app]. rewrite annotate_no_pop by exact final_no_pop.
+      apply Forall_forall. intros ep Hep. apply in_map_iff in Hep as (e & <- & He).
+      intros _. cbn [fst snd]. unfold final in He. rewrite (scale_trace_scale _ _ _ _ He). lia.
+    - cbn [down flat_map]. rewrite <- app_assoc, annotate_app, seg_pops.
+      apply Forall_app. split.
+      + rewrite scale_trace_app, annotate_app.
+        rewrite (scale_trace_no_pop _ _ _ Hpre). cbn [length]. rewrite Nat.add_0_r.
+        apply Forall_app. split.
+        * rewrite annotate_no_pop by (apply scale_trace_no_pop; exact Hpre).
+          apply Forall_forall. intros ep Hep. apply in_map_iff in Hep as (e & <- & He).
+          intros _. cbn [fst snd]. rewrite (scale_trace_scale _ _ _ _ He). lia.
+        * apply Forall_forall. intros [e p] Hep Hk'. exfalso. apply Hk'. cbn [fst].
+          apply (seg_msc_events (S j)).
+          clear - Hep. revert k Hep. generalize (scale_trace rdm (Z.of_nat (S j)) [ms]).
+          induction l as [|x l IHl]; intros k H; [destruct H|].
+          cbn [annotate] in H. destruct H as [H|H]; [injection H as -> _; left; reflexivity|].
+          right. eapply IHl. exact H.
+      + apply IH. lia.
+  Qed.
+
+  Theorem pops_per_execution :
+    Forall (pops_ok n) (annotate 0 (spec_trace pre ms post n rdm)).
+  Proof. unfold spec_trace. rewrite coarse_scales_down. apply pops_invariant. lia. Qed.
+End Sizes.
+
+Lemma pyramid_nth n H W sf pops : (pops < n)%nat ->
+  nth pops (pyramid_sizes n H W sf) (0, 0)
+  = (level_size (n - 1 - pops) H sf, level_size (n - 1 - pops) W sf).
+Proof.
+  intros Hp. unfold pyramid_sizes.
+  set (f := fun k : nat => (level_size k H sf, level_size k W sf)).
+  assert (L : length (map f (seq 0 n)) = n) by (rewrite map_length, seq_length; reflexivity).
+  rewrite rev_nth by (rewrite L; exact Hp). rewrite L.
+  change (0, 0) with (0, 0). 
+  rewrite (nth_indep _ (0, 0) (f 0%nat)) by (rewrite L; lia).
+  rewrite map_nth. rewrite seq_nth by lia. unfold f. replace (0 + (n - S pops))%nat with (n - 1 - pops)%nat by lia. reflexivity.
+Qed.
+
+Lemma annotate_fst k tr : map fst (annotate k tr) = tr.
+Proof. revert k. induction tr as [|e r IH]; intros k; cbn [annotate map fst]; [reflexivity|]. f_equal. apply IH. Qed.
+
+(* every execution of a step other than the multiscale step itself, at scale j, works on
+   images of size ceil(H / sf^j) x ceil(W / sf^j) *)
+Theorem image_size_per_execution pre ms post n rdm H W sf e sz :
+  (n >= 1)%nat -> has_kind Msc pre = false -> s_kind ms = Some Msc ->
+  In (e, sz) (image_sizes n H W sf (spec_trace pre ms post n rdm)) -> ev_kind e <> Msc ->
+  0 <= ev_scale e < Z.of_nat n /\
+  sz = (level_size (Z.to_nat (ev_scale e)) H sf, level_size (Z.to_nat (ev_scale e)) W sf).
+Proof.
+  intros Hn Hpre Hms Hin Hk. unfold image_sizes in Hin. apply in_map_iff in Hin as ([e' p] & E & Hin).
+  cbn [fst snd] in E. injection E as -> <-.
+  pose proof (pops_per_execution pre ms post n rdm Hn Hpre Hms) as F.
+  rewrite Forall_forall in F. specialize (F _ Hin Hk). cbn [fst snd] in F. destruct F as [F0 F1].
+  split; [lia|]. rewrite pyramid_nth by lia. replace (Z.to_nat (ev_scale e)) with (n - 1 - p)%nat by lia. reflexivity.
+Qed.
+
+(* ================================================================== returned maps *)
+
+Lemma last_app_nonempty {A} (x y : list A) d : y <> [] -> last (x ++ y) d = last y d.
+Proof.
+  intros Hy. induction x as [|a x IH]; [reflexivity|].
+  cbn [app]. destruct (x ++ y) eqn:E.
+  - destruct x; [cbn in E; congruence | discriminate].
+  - change (last (a :: a0 :: l) d) with (last (a0 :: l) d). exact IH.
+Qed.
+
+Lemma last_In {A} (y : list A) d : y <> [] -> In (last y d) y.
+Proof.
+  induction y as [|a y IH]; [congruence|]. intros _. destruct y as [|b y].
+  - left. reflexivity.
+  - right. apply IH. discriminate.
+Qed.
+
+Definition is_dsp_left (ep : ev * (Z * Z)) : bool :=
+  match fst ep with Ev _ Dsp _ false => true | _ => false end.
+
+(* the dataset returned by pandora.run is the one written by the last execution of the
+   disparity step: it has the size of the original images *)
+Theorem output_full_size pre ms post n rdm H W sf s :
+  (n >= 1)%nat -> has_kind Msc pre = false -> s_kind ms = Some Msc ->
+  In s pre -> s_kind s = Some Dsp ->
+  output_size n H W sf (spec_trace pre ms post n rdm) = (H, W).
+Proof.
+  intros Hn Hpre Hms Hin Hk.
+  pose proof (pops_per_execution pre ms post n rdm Hn Hpre Hms) as F.
+  unfold output_size, image_sizes. unfold spec_trace in *.
+  set (coarse := flat_map (fun j => scale_trace rdm (Z.of_nat j) (pre ++ [ms])) (coarse_scales n)) in *.
+  set (final := scale_trace rdm 0 (pre ++ filter not_msc post)) in *.
+  rewrite annotate_app in *. set (k := (0 + length (filter is_msc_left coarse))%nat) in *.
+  apply Forall_app in F as [_ F].
+  rewrite map_app, filter_app, map_app.
+  set (g := fun ep : ev * nat => (fst ep, nth (snd ep) (pyramid_sizes n H W sf) (0, 0))).
+  set (y := map snd (filter (fun ep : ev * (Z * Z) => match fst ep with Ev _ Dsp _ false => true | _ => false end)
+                            (map g (annotate k final)))).
+  assert (Hall : forall sz, In sz y -> sz = (H, W)).
+  { intros sz Hsz. unfold y in Hsz. apply in_map_iff in Hsz as ([e sz'] & E & Hf). cbn [snd] in E. subst sz'.
+    apply filter_In in Hf as [Hf Hd]. apply in_map_iff in Hf as ([e' p] & E & Hf).
+    unfold g in E. cbn [fst snd] in E. injection E as -> <-.
+    rewrite Forall_forall in F. specialize (F _ Hf). unfold pops_ok in F. cbn [fst snd] in F.
+    assert (Hsc : ev_scale e = 0).
+    { assert (In e final).
+      { rewrite <- (annotate_fst k final). apply in_map_iff. exists (e, p). split; [reflexivity | exact Hf]. }
+      unfold final in H0. exact (scale_trace_scale _ _ _ _ H0). }
+    assert (Hkd : ev_kind e <> Msc).
+    { cbn [fst] in Hd. destruct e as [i kd sc r]. cbn [ev_kind]. destruct kd; try discriminate Hd. discriminate. }
+    destruct (F Hkd) as [_ F1]. rewrite pyramid_nth by lia.
+    replace (n - 1 - p)%nat with 0%nat by lia. reflexivity. }
+  assert (Hne : y <> []).
+  { (* the disparity step of [pre] is executed in the final segment *)
+    assert (He : In (Ev (s_id s) Dsp 0 false) final).
+    { unfold final, scale_trace. apply in_flat_map. exists s. split; [apply in_or_app; left; exact Hin|].
+      unfold step_evs. rewrite Hk. unfold evs. left. reflexivity. }
+    rewrite <- (annotate_fst k final) in He. apply in_map_iff in He as ([e p] & E & He). cbn [fst] in E. subst e.
+    intro Hy. assert (Hy' : In (snd (g (Ev (s_id s) Dsp 0 false, p))) y).
+    { unfold y. apply in_map. apply filter_In. split; [apply in_map; exact He | reflexivity]. }
+    rewrite Hy in Hy'. destruct Hy'. }
+  rewrite last_app_nonempty by exact Hne. apply Hall. apply last_In. exact Hne.
+Qed.
